@@ -273,7 +273,7 @@ def abstract_assorter(S, I, con, u_a, values, tally_pool_means=None):
     ids = {id(c): v for c, v in values}
 
     def assort(I_, a, k):
-        c = a[0]
+        c = a[0] if a else next(iter(k.values()))
         if id(c) not in ids:
             raise Unsupported("assort on an unknown card")
         return ids[id(c)]
@@ -481,7 +481,7 @@ def p_setup(S, I, shape=((2,), (1,))):
             testobj = Obj(NM, {"u": S.real(f"stale_u_{aid}", lo_strict=0)})
 
             def test(I_, a, k, aid=aid, testobj=testobj, pv=pv, hist=hist):
-                log.append((aid, a[0], testobj.attrs["u"]))
+                log.append((aid, a[0] if a else k.get("x"), testobj.attrs["u"]))
                 return (pv, hist)
 
             testobj.attrs["test"] = Builtin("abstract_test", test)
@@ -994,7 +994,8 @@ def find_sample_size_comparison(S, I, variant):
     ret = S.integer("estimate", lo=1)
 
     def sample_size(I_, a, k):
-        calls.append((a[0], dict(k)))
+        k = dict(k)
+        calls.append((a[0] if a else k.pop("x", None), k))
         return ret
 
     NM = I.get("shangrla.core.NonnegMean", "NonnegMean")
